@@ -29,10 +29,23 @@ pub struct Findings {
 
 impl Findings {
     pub fn load(path: &Path) -> Findings {
-        match std::fs::read(path) {
+        let mut all = match std::fs::read(path) {
             Ok(b) => serde_json::from_slice(&b).unwrap_or_else(|e| crate::machinery(&format!("known_findings.json does not parse: {e}"))),
             Err(_) => Findings::default(),
+        };
+        // per-property fragments (committed; same format) — merged read-only
+        if let Some(dir) = path.parent().map(|p| p.join("findings.d")) {
+            let mut names: Vec<_> = std::fs::read_dir(&dir).map(|d| d.filter_map(|e| e.ok()).map(|e| e.path()).collect()).unwrap_or_default();
+            names.sort();
+            for f in names {
+                if f.extension().map(|e| e == "json").unwrap_or(false) {
+                    let b = std::fs::read(&f).unwrap_or_default();
+                    let part: Findings = serde_json::from_slice(&b).unwrap_or_else(|e| crate::machinery(&format!("{} does not parse: {e}", f.display())));
+                    all.findings.extend(part.findings);
+                }
+            }
         }
+        all
     }
     pub fn match_open(&self, property: &str, sig: &str) -> Option<&Finding> {
         self.findings
